@@ -28,3 +28,14 @@ package thrift
 //@   loop 0 invariant size >= 2
 //@   loop 1 invariant writeBuffer != nil
 //@   property C18
+
+// C18 "response headers set by the handler reach the caller": whenever the call
+// produced a response -- a normal result or a declared Thrift exception alike --
+// its headers are handed to the caller's context.
+// (calls(F): number of calls of F made by the function's own body.)
+//@ func (c *client) Call(ctx Context, thriftService, methodName string, req, resp thrift.TStruct) (ok bool, err error)
+//@   nosafety
+//@   modifies all
+//@   label response-headers-reach-the-caller-whenever-there-is-a-response
+//@   ensures err == nil ==> calls(SetResponseHeaders) == 1
+//@   property C18 C18call
